@@ -188,6 +188,22 @@ def oracle(setup, call, out):
     return None, d, None
 
 
+def signature(setup, call, d, msg, path):
+    """Computed on the shrunk input: oracle class, failing paths, the options still needed, how many subscriptions
+    of addressed connections were removed at all, and whether an unsubscribe push without channel name was written."""
+    kv, opts = G.parse_call(call)
+    conns = parse_setup(setup)
+    addr = addressed(conns, kv, opts)
+    removed, empty_push = 0, False
+    if d:
+        for side in ("L", "R"):
+            chans, evs = observed(d[side])
+            removed += sum(len(conns[a]["subs"]) - len(chans.get(a, [])) for a in addr)
+            empty_push = empty_push or any(e.startswith("push:") and e.split(":")[2] == "-" for e in evs)
+    return {"oracle": msg, "paths": path, "options": "+".join(sorted(n for n, _ in opts)), "removed": removed,
+            "empty_push": empty_push}
+
+
 def gen_ops(rng, facts, n):
     ops = []
     while n > 0:
@@ -325,7 +341,7 @@ def run(ctx):
                 o2 = run_blocks(ctx, binary, [(s2, c2)])[0]
                 m2, d2, p2 = oracle(s2, c2, o2)
                 ctx.violation("property", "Node.Unsubscribe with an empty channel: " + (m2 or msg),
-                              signature={"oracle": m2 or msg, "paths": p2 or path},
+                              signature=signature(s2, c2, d2, m2 or msg, p2 or path),
                               replay={"ops": s2 + [c2], "impl": d2, "original_ops": setup + [op]})
         # correspondence with the model (current or fixed mode)
         if m.startswith("cur L "):
